@@ -1255,20 +1255,25 @@ class ConfigInformation:
 
         context.serialized.add(id(self.pyobject))
 
-        # Serialize sub-objects
+        # Serialize sub-objects (the position in the graph is pushed on the
+        # context: it names the data files of the sub-objects)
         for argument, value in self.xpmvalues():
             if value is not None:
-                ConfigInformation.__collect_objects__(value, objects, context)
+                with context.push(argument.name):
+                    ConfigInformation.__collect_objects__(value, objects, context)
 
         # Adds task
         if self.task is not None and self.task is not self:
-            ConfigInformation.__collect_objects__(self.task, objects, context)
+            with context.push("__task__"):
+                ConfigInformation.__collect_objects__(self.task, objects, context)
 
         # Serialize pre-tasks
-        ConfigInformation.__collect_objects__(self.pre_tasks, objects, context)
+        with context.push("__pre_tasks__"):
+            ConfigInformation.__collect_objects__(self.pre_tasks, objects, context)
 
         # Serialize initialization tasks
-        ConfigInformation.__collect_objects__(self.init_tasks, objects, context)
+        with context.push("__init_tasks__"):
+            ConfigInformation.__collect_objects__(self.init_tasks, objects, context)
 
         # Serialize ourselves
         state_dict = {
@@ -1318,11 +1323,13 @@ class ConfigInformation:
         if isinstance(value, Config):
             value.__xpm__.__get_objects__(objects, context)
         elif isinstance(value, list):
-            for el in value:
-                ConfigInformation.__collect_objects__(el, objects, context)
+            for ix, el in enumerate(value):
+                with context.push(str(ix)):
+                    ConfigInformation.__collect_objects__(el, objects, context)
         elif isinstance(value, dict):
-            for el in value.values():
-                ConfigInformation.__collect_objects__(el, objects, context)
+            for key, el in value.items():
+                with context.push(str(key)):
+                    ConfigInformation.__collect_objects__(el, objects, context)
         elif isinstance(value, (Path, int, float, str, Enum)):
             pass
         else:
